@@ -378,6 +378,17 @@ func refineOne(P *Program, ic *FuncContract, ifaceT types.Type, c *FuncContract,
 	base := shortFuncName(fn) + "/refine:" + ic.Recv + "." + ic.Name
 	build := func(kind string) *Obligation {
 		e := newEnc(P)
+		// opaque spec functions named in `reveal` clauses of the interface contract or of the implementation's contract
+		// are open in the refinement proof
+		if len(ic.Reveals)+len(c.Reveals) > 0 {
+			e.revealed = map[string]bool{}
+			for _, r := range ic.Reveals {
+				e.revealed[r] = true
+			}
+			for _, r := range c.Reveals {
+				e.revealed[r] = true
+			}
+		}
 		fv := &FuncVC{P: P, e: e, name: base, oblCount: map[string]int{}, assumptions: map[string]bool{}, oblBlk: -1}
 		pre := &State{kind: sEntry, h: map[string]Term{}, fv: fv}
 		// post state of the implementation: only what its contract lets it change differs
